@@ -40,38 +40,64 @@ theorem copyOf_strip (sp : StripFn) (v : Option Value) :
       induction l with
       | nil => rfl
       | cons x xs ih =>
-        simp only [List.flatMap_cons, List.map_cons, ih, Loc.strip_focus]
-        rw [copyEvents_strip sp x.focus]
+        simp only [List.flatMap_cons, List.map_cons, ih]
+        congr 1
+        cases x with
+        | node l => simp only [copyX, XNode.strip, Loc.strip_focus]; exact copyEvents_strip sp l.focus
+        | attr o k i q v => cases k <;> rfl
     | num n => rfl
     | str s => rfl
     | bool b => rfl
 
+/-! ### patterns as expressions -/
+
+theorem memById_strip (sp : StripFn) (x : XNode) (l : List XNode) :
+    memById (x.strip sp) (l.map (XNode.strip sp)) = memById x l := by
+  induction l with
+  | nil => rfl
+  | cons y ys ih =>
+    simp only [memById, List.map_cons, List.any_cons, XNode.strip_id] at ih ⊢
+    rw [ih]
+
+theorem patternSelects_strip (sp : StripFn) (sel : Expr) (root : Loc) (x : XNode) (hr : root.stripped sp = false) :
+    patternSelects sp sel root x = patternSelects noStrip sel (root.strip sp) (x.strip sp) := by
+  unfold patternSelects
+  have h := (eval_sim sp sel ⟨.node root, 1, 1, []⟩ ⟨hr, by simp⟩).1
+  simp only [Ctx.strip, XNode.strip, List.map_nil] at h
+  rw [← h]
+  cases sel.eval sp ⟨.node root, 1, 1, []⟩ with
+  | none => rfl
+  | some v => cases v <;> simp [memById_strip]
+
 /-! ### select contexts and sort keys -/
 
-theorem ctxList_strip (sp : StripFn) (n : Nat) : ∀ (l : List Loc) (i : Nat),
-    (ctxList n l i).map (Ctx.strip sp) = ctxList n (l.map (Loc.strip sp)) i
+theorem ctxList_strip (sp : StripFn) (n : Nat) (vars : List Value) : ∀ (l : List XNode) (i : Nat),
+    (ctxList n vars l i).map (Ctx.strip sp) = ctxList n (vars.map (Value.strip sp)) (l.map (XNode.strip sp)) i
   | [], _ => rfl
-  | x :: xs, i => by simp [ctxList, Ctx.strip, ctxList_strip sp n xs (i + 1)]
+  | x :: xs, i => by simp [ctxList, Ctx.strip, ctxList_strip sp n vars xs (i + 1)]
 
-theorem contextsOf_strip (sp : StripFn) (v : Option Value) :
-    (contextsOf v).map (List.map (Ctx.strip sp)) = contextsOf (v.map (Value.strip sp)) := by
+theorem contextsOf_strip (sp : StripFn) (vars : List Value) (v : Option Value) :
+    (contextsOf vars v).map (List.map (Ctx.strip sp))
+      = contextsOf (vars.map (Value.strip sp)) (v.map (Value.strip sp)) := by
   cases v with
   | none => rfl
   | some v => cases v <;> simp [contextsOf, ctxList_strip]
 
-theorem ctxList_nodes (n : Nat) : ∀ (l : List Loc) (i : Nat), ∀ cx ∈ ctxList n l i, cx.node ∈ l
+theorem ctxList_nodes (n : Nat) (vars : List Value) : ∀ (l : List XNode) (i : Nat),
+    ∀ cx ∈ ctxList n vars l i, cx.node ∈ l ∧ cx.vars = vars
   | [], _, cx, h => by simp [ctxList] at h
   | x :: xs, i, cx, h => by
     simp only [ctxList, List.mem_cons] at h
     rcases h with rfl | h
     · simp
-    · exact List.mem_cons_of_mem _ (ctxList_nodes n xs (i + 1) cx h)
+    · exact ⟨List.mem_cons_of_mem _ (ctxList_nodes n vars xs (i + 1) cx h).1, (ctxList_nodes n vars xs (i + 1) cx h).2⟩
 
-theorem sortKeys_strip (sp : StripFn) (sel key : Expr) (c : Ctx) (hc : c.node.stripped sp = false) :
+theorem sortKeys_strip (sp : StripFn) (sel key : Expr) (c : Ctx) (hc : c.ok sp) :
     sortKeys sp sel key c = sortKeys noStrip sel key (c.strip sp) := by
   unfold sortKeys
   have hs := eval_sim sp sel c hc
-  rw [← hs.1, ← contextsOf_strip]
+  show _ = Option.map _ (contextsOf (Ctx.strip sp c).vars _)
+  rw [← hs.1, show (Ctx.strip sp c).vars = c.vars.map (Value.strip sp) from rfl, ← contextsOf_strip]
   cases hv : sel.eval sp c with
   | none => rfl
   | some v =>
@@ -80,8 +106,9 @@ theorem sortKeys_strip (sp : StripFn) (sel key : Expr) (c : Ctx) (hc : c.node.st
       simp only [contextsOf, Option.map_some, List.map_map, Option.some.injEq]
       apply List.map_congr_left
       intro cx hcx
-      have hx : cx.node.stripped sp = false := hs.2 l hv cx.node (ctxList_nodes l.length l 1 cx hcx)
-      have hk := (eval_sim sp key cx hx).1
+      have hcl := ctxList_nodes l.length c.vars l 1 cx hcx
+      have hx : cx.node.stripped sp = false := hs.2 l hv cx.node hcl.1
+      have hk := (eval_sim sp key cx ⟨hx, by rw [hcl.2]; exact hc.2⟩).1
       simp only [Function.comp]
       rw [← hk]
       cases key.eval sp cx with
@@ -96,11 +123,40 @@ theorem sortKeys_strip (sp : StripFn) (sel key : Expr) (c : Ctx) (hc : c.node.st
 theorem isDocument_strip (sp : StripFn) (l : Loc) : (l.strip sp).isDocument = l.isDocument := by
   simp [Loc.isDocument, Loc.strip]
 
-theorem patMatches_strip (sp : StripFn) (t : Test) (l : Loc) :
+theorem patMatches_strip (sp : StripFn) (t : Pat) (l : Loc) :
     patMatches sp t l = (keep sp l && patMatches noStrip t (l.strip sp)) := by
-  unfold patMatches
+  unfold patMatches keep
+  exact t.strip sp l
+
+theorem testMatches_strip (sp : StripFn) (t : Test) (l : Loc) :
+    testMatches sp t l = (keep sp l && testMatches noStrip t (l.strip sp)) := by
+  unfold testMatches
   rw [accepts_strip sp t l, isDocument_strip]
   cases l.isDocument <;> cases keep sp l <;> simp
+
+/-- a one-step pattern: a node test -/
+def testPat (t : Test) : Pat where
+  m := fun sp l => testMatches sp t l
+  doc := by intro sp x hx; simp [testMatches, hx]
+  strip := by intro sp x; exact testMatches_strip sp t x
+
+/-- any expression of the fragment read as a pattern (`a/b[2]`, `*[not(text())]//c`, …): `x` matches iff it is not
+stripped, not the document node, and selected by `sel` evaluated at the document node of its tree -/
+def exprPatM (sel : Expr) (sp : StripFn) (x : Loc) : Bool :=
+  !x.isDocument && !x.stripped sp && (patternSelects sp sel x.root (.node x) == some true)
+
+def exprPat (sel : Expr) : Pat where
+  m := exprPatM sel
+  doc := by intro sp x hx; simp [exprPatM, hx]
+  strip := by
+    intro sp x
+    unfold exprPatM
+    rw [isDocument_strip, stripped_after_strip]
+    cases hs : x.stripped sp
+    · have hr := root_strip sp x hs
+      rw [patternSelects_strip sp sel x.root (.node x) hr.2, hr.1]
+      simp [XNode.strip]
+    · simp
 
 def stripEntry (sp : StripFn) (e : String × Loc) : String × Loc := (e.1, e.2.strip sp)
 
@@ -127,14 +183,14 @@ theorem keyEntriesAt_strip (sp : StripFn) (k : KeyDecl) (n : Loc) (hn : keep sp 
     (keyEntriesAt sp k n).map (List.map (stripEntry sp)) = keyEntriesAt noStrip k (n.strip sp) := by
   have hs : n.stripped sp = false := by simpa [keep] using hn
   have ha := patMatches_strip sp k.matchT n
-  have he := (eval_sim sp k.use ⟨n, 1, 1⟩ hs).1
-  simp only [Ctx.strip] at he
+  have he := (eval_sim sp k.use ⟨.node n, 1, 1, []⟩ ⟨hs, by simp⟩).1
+  simp only [Ctx.strip, XNode.strip, List.map_nil] at he
   unfold keyEntriesAt
   rw [ha, hn, Bool.true_and, ← he]
   cases patMatches noStrip k.matchT (n.strip sp)
   · rfl
   · simp only [if_true]
-    cases k.use.eval sp ⟨n, 1, 1⟩ with
+    cases k.use.eval sp ⟨.node n, 1, 1, []⟩ with
     | none => rfl
     | some v =>
       cases v with
@@ -143,7 +199,7 @@ theorem keyEntriesAt_strip (sp : StripFn) (k : KeyDecl) (n : Loc) (hn : keep sp 
         congr 1
         apply List.map_congr_left
         intro x _
-        simp [stripEntry, Loc.strVal_strip]
+        simp [stripEntry, XNode.strVal_strip]
       | num m => rfl
       | str s => rfl
       | bool b => rfl
@@ -164,7 +220,7 @@ theorem keyTable_strip (sp : StripFn) (k : KeyDecl) (root : Loc) (h : root.strip
   rw [descendants_strip]
 
 theorem keyLookup_strip (sp : StripFn) (k : KeyDecl) (root : Loc) (s : String) (h : root.stripped sp = false) :
-    (keyLookup sp k root s).map (List.map (Loc.strip sp)) = keyLookup noStrip k (root.strip sp) s := by
+    (keyLookup sp k root s).map (List.map (XNode.strip sp)) = keyLookup noStrip k (root.strip sp) s := by
   unfold keyLookup
   rw [← keyTable_strip sp k root h]
   cases keyTable sp k root with
@@ -177,11 +233,11 @@ theorem keyLookup_strip (sp : StripFn) (k : KeyDecl) (root : Loc) (s : String) (
     | nil => rfl
     | cons e es ih =>
       simp only [List.map_cons, List.filter_cons, stripEntry]
-      cases e.1 == s <;> simp [ih]
+      cases e.1 == s <;> simp [ih, XNode.strip]
 
 /-! ### xsl:number level any, the specification -/
 
-theorem fromMatches_strip (sp : StripFn) (f : Option Test) (l : Loc) (h : keep sp l = true) :
+theorem fromMatches_strip (sp : StripFn) (f : Option Pat) (l : Loc) (h : keep sp l = true) :
     fromMatches sp f l = fromMatches noStrip f (l.strip sp) := by
   cases f with
   | none => rfl
@@ -222,7 +278,7 @@ theorem before_strip (sp : StripFn) (l : Loc) (h : l.stripped sp = false) :
     ((l.before).filter (keep sp)).map (Loc.strip sp) = (l.strip sp).before :=
   beforeAux_strip sp l.path l.focus h
 
-theorem filter_patMatches_strip (sp : StripFn) (c : Test) (L : List Loc) :
+theorem filter_patMatches_strip (sp : StripFn) (c : Pat) (L : List Loc) :
     (L.filter (patMatches sp c)).length
       = (((L.filter (keep sp)).map (Loc.strip sp)).filter (patMatches noStrip c)).length := by
   induction L with
@@ -236,7 +292,7 @@ theorem filter_patMatches_strip (sp : StripFn) (c : Test) (L : List Loc) :
       · simp [hk, hp, ih]
     · simp [hk, ih]
 
-theorem takeWhile_from_strip (sp : StripFn) (f : Option Test) :
+theorem takeWhile_from_strip (sp : StripFn) (f : Option Pat) :
     ∀ L : List Loc,
       (((L.takeWhile fun x => !fromMatches sp f x).filter (keep sp)).map (Loc.strip sp))
         = (((L.filter (keep sp)).map (Loc.strip sp)).takeWhile fun x => !fromMatches noStrip f x)
@@ -260,7 +316,7 @@ theorem takeWhile_from_strip (sp : StripFn) (f : Option Test) :
         if_false]
       exact ih
 
-theorem numberAnySpec_strip (sp : StripFn) (c : Test) (f : Option Test) (l : Loc) (h : l.stripped sp = false) :
+theorem numberAnySpec_strip (sp : StripFn) (c : Pat) (f : Option Pat) (l : Loc) (h : l.stripped sp = false) :
     numberAnySpec sp c f l = numberAnySpec noStrip c f (l.strip sp) := by
   unfold numberAnySpec
   rw [filter_patMatches_strip sp c (l :: _)]
@@ -270,7 +326,7 @@ theorem numberAnySpec_strip (sp : StripFn) (c : Test) (f : Option Test) (l : Loc
 
 /-! ### xsl:number single / multiple -/
 
-theorem matchingAncestorsFrom_strip (sp : StripFn) (c : Test) (f : Option Test) (single : Bool) :
+theorem matchingAncestorsFrom_strip (sp : StripFn) (c : Pat) (f : Option Pat) (single : Bool) :
     ∀ (L : List Loc) (b : Bool), (∀ x ∈ L, keep sp x = true) →
       (matchingAncestorsFrom sp c f single b L).map (Loc.strip sp)
         = matchingAncestorsFrom noStrip c f single b (L.map (Loc.strip sp))
@@ -286,13 +342,13 @@ theorem matchingAncestorsFrom_strip (sp : StripFn) (c : Test) (f : Option Test) 
     rw [← hp]
     cases b <;> cases fromMatches sp f n <;> cases single <;> cases patMatches sp c n <;> simp [ih]
 
-theorem matchingAncestors_strip (sp : StripFn) (c : Test) (f : Option Test) (single : Bool)
+theorem matchingAncestors_strip (sp : StripFn) (c : Pat) (f : Option Pat) (single : Bool)
     (L : List Loc) (h : ∀ x ∈ L, keep sp x = true) :
     (matchingAncestors sp c f single L).map (Loc.strip sp)
       = matchingAncestors noStrip c f single (L.map (Loc.strip sp)) :=
   matchingAncestorsFrom_strip sp c f single L true h
 
-theorem siblingChain_strip (sp : StripFn) (c : Test) :
+theorem siblingChain_strip (sp : StripFn) (c : Pat) :
     ∀ L : List Loc, siblingChain sp c L = siblingChain noStrip c ((L.filter (keep sp)).map (Loc.strip sp))
   | [] => rfl
   | x :: xs => by
@@ -304,12 +360,12 @@ theorem siblingChain_strip (sp : StripFn) (c : Test) :
     · have hk' : keep sp x = false := (Bool.not_eq_true _).mp hk
       simp only [hk', Bool.false_and, Bool.false_eq_true, if_false, ih]
 
-theorem numberOfTarget_strip (sp : StripFn) (c : Test) (t : Loc) (h : t.stripped sp = false) :
+theorem numberOfTarget_strip (sp : StripFn) (c : Pat) (t : Loc) (h : t.stripped sp = false) :
     numberOfTarget sp c t = numberOfTarget noStrip c (t.strip sp) := by
   unfold numberOfTarget
   rw [siblingChain_strip sp c t.precedingSiblings, precedingSiblings_strip sp t h]
 
-theorem matchingAncestorsFrom_sub (sp : StripFn) (c : Test) (f : Option Test) (single : Bool) :
+theorem matchingAncestorsFrom_sub (sp : StripFn) (c : Pat) (f : Option Pat) (single : Bool) :
     ∀ (L : List Loc) (b : Bool), ∀ x ∈ matchingAncestorsFrom sp c f single b L, x ∈ L
   | [], _, x, hx => by simp [matchingAncestorsFrom] at hx
   | n :: rest, b, x, hx => by
@@ -324,11 +380,11 @@ theorem matchingAncestorsFrom_sub (sp : StripFn) (c : Test) (f : Option Test) (s
           · exact List.mem_cons_of_mem _ (matchingAncestorsFrom_sub sp c f single rest false x hx)
       · exact List.mem_cons_of_mem _ (matchingAncestorsFrom_sub sp c f single rest false x hx)
 
-theorem matchingAncestors_sub (sp : StripFn) (c : Test) (f : Option Test) (single : Bool)
+theorem matchingAncestors_sub (sp : StripFn) (c : Pat) (f : Option Pat) (single : Bool)
     (L : List Loc) : ∀ x ∈ matchingAncestors sp c f single L, x ∈ L :=
   matchingAncestorsFrom_sub sp c f single L true
 
-theorem numberList_strip (sp : StripFn) (c : Test) (f : Option Test) (single : Bool) (l : Loc)
+theorem numberList_strip (sp : StripFn) (c : Pat) (f : Option Pat) (single : Bool) (l : Loc)
     (h : l.stripped sp = false) :
     numberList sp c f single l = numberList noStrip c f single (l.strip sp) := by
   unfold numberList
